@@ -1,6 +1,7 @@
 package main
 
 import (
+	"regexp"
 	"bytes"
 	"context"
 	"fmt"
@@ -223,6 +224,19 @@ func discharge(o *Oblig, lits []*Term, workDir string, idx int, tsec int, allAgr
 				v.Backend = "z3-new (relevant hypotheses)"
 				rmQuery(file)
 				return true
+			}
+			if o3 := relevantVersionN(o, 1); o3 != nil && len(o3.Hyps) != len(o2.Hyps) {
+				os.WriteFile(f2, []byte(smtText(o3, lits, false)), 0o644)
+				first, _, secs := runSolver(backends[0], f2, 3*scale)
+				v.Seconds += secs
+				v.Tried = append(v.Tried, "z3-new(relevant+1):"+first)
+				rmQuery(f2)
+				if first == "unsat" {
+					v.Status = "discharged"
+					v.Backend = "z3-new (relevant hypotheses)"
+					rmQuery(file)
+					return true
+				}
 			}
 		}
 		// attempt 1c: case split on the most frequent ground if-then-else condition (e.g. "append reallocates or not"): both
@@ -469,12 +483,53 @@ func rmQuery(f string) {
 
 // relevantVersion keeps the quantifier-free hypotheses and those quantified hypotheses/axioms that mention a symbol of the goal
 // (allocation watermarks do not count). nil when nothing would be dropped.
-func relevantVersion(o *Oblig) *Oblig {
+func relevantVersion(o *Oblig) *Oblig { return relevantVersionN(o, 0) }
+
+// relevantVersionN: level 0 uses the goal's memory/function symbols; level 1 first adds the symbols (also call results) of the
+// quantifier-free hypotheses that share a symbol with the goal, so that facts linked to the goal through one equation stay in.
+func relevantVersionN(o *Oblig, level int) *Oblig {
+	symbolsOf := func(t *Term, out map[string]bool) { // shadow: memory symbols are compared without their generation suffix
+		tmp := map[string]bool{}
+		symbolsOf(t, tmp)
+		for k := range tmp {
+			out[baseSymbol(k)] = true
+		}
+	}
 	gs := map[string]bool{}
 	symbolsOf(o.Goal, gs)
 	for k := range gs {
-		if k == "top0" || strings.HasSuffix(k, "_top") {
+		// only memory (heap arrays, ghost maps) and function symbols count: plain variables (parameters, results, watermarks) occur
+		// in almost every hypothesis and would make everything "relevant"
+		if k == "top0" || strings.HasSuffix(k, "_top") || isPlainVarName(k) {
 			delete(gs, k)
+		}
+	}
+	if level > 0 {
+		add := map[string]bool{}
+		for _, h := range o.Hyps {
+			if hasQuant(h) {
+				continue
+			}
+			hs := map[string]bool{}
+			symbolsOf(h, hs)
+			share := false
+			for k := range hs {
+				if gs[k] {
+					share = true
+					break
+				}
+			}
+			if share {
+				for k := range hs {
+					if k == "top0" || strings.HasSuffix(k, "_top") || strings.Contains(k, "_p_") {
+						continue
+					}
+					add[k] = true
+				}
+			}
+		}
+		for k := range add {
+			gs[k] = true
 		}
 	}
 	rel := func(h *Term) bool {
@@ -546,4 +601,36 @@ func caseSplit(o *Oblig) []*Oblig {
 		out = append(out, &oc)
 	}
 	return out
+}
+
+// isPlainVarName: v<N>_... symbols (fresh values, parameters, call results) as opposed to heap arrays and function symbols.
+func isPlainVarName(k string) bool {
+	if len(k) < 2 || k[0] != 'v' {
+		return false
+	}
+	i := 1
+	for i < len(k) && k[i] >= '0' && k[i] <= '9' {
+		i++
+	}
+	if i == 1 || i >= len(k) || k[i] != '_' {
+		return false
+	}
+	rest := k[i+1:]
+	// havocked heaps keep a heap-like name after the counter (v12_havoc_live, v7_loophavoc_H_...): those are memory
+	return !(strings.HasPrefix(rest, "havoc_") || strings.HasPrefix(rest, "loophavoc_") || strings.HasPrefix(rest, "approw") || strings.HasPrefix(rest, "appcopy") || strings.HasPrefix(rest, "copyrow"))
+}
+
+var genSuffix = regexp.MustCompile(`_g[0-9]+$`)
+var havocPrefix = regexp.MustCompile(`^v[0-9]+_(loop)?havoc_`)
+
+// baseSymbol: H_T_f_g12 -> H_T_f ; v7_loophavoc_H_T_f -> H_T_f (the same memory in another generation).
+func baseSymbol(k string) string {
+	k = genSuffix.ReplaceAllString(k, "")
+	if loc := havocPrefix.FindStringIndex(k); loc != nil {
+		rest := k[loc[1]:]
+		if strings.HasPrefix(rest, "H_") || strings.HasPrefix(rest, "G_") || strings.HasPrefix(rest, "E_") || strings.HasPrefix(rest, "C_") {
+			return rest
+		}
+	}
+	return k
 }
